@@ -41,6 +41,11 @@ pub struct WireCase {
     pub share_file: bool,
     pub repeats: u8,
     pub fresh_thread: bool,
+    /// the parent's own fds 0..2 in this mask are CLOSED during the spawn (a
+    /// daemon-like parent); only applied to streams that are redirected to a
+    /// pipe or file
+    #[serde(default)]
+    pub closed_std: u8,
 }
 
 /// expected object behind a child descriptor
@@ -165,7 +170,16 @@ fn spawn_once(case: &WireCase, helper: &std::path::Path, prefix: &std::path::Pat
     let cfg = PopenConfig { stdin: it.next().unwrap(), stdout: it.next().unwrap(), stderr: it.next().unwrap(), ..Default::default() };
     let before = fd_snapshot();
     ip::counters_reset();
+    let mut mask = 0u8;
+    for i in 0..3 {
+        if case.closed_std & (1 << i) != 0 && matches!(case.cfg[i], RK::Pipe | RK::File | RK::RcFile) {
+            mask |= 1 << i;
+        }
+    }
     ip::COUNTING.store(true, SeqCst);
+    // the closed descriptors stay closed for as long as the Popen's handles
+    // live: the library may hand out handles on exactly those numbers
+    let mut closed_guard = Some(CloseGuard::new(mask));
     let res = Popen::create(&[helper.as_os_str()], cfg);
     ip::COUNTING.store(false, SeqCst);
     obs.forks = ip::PARENT_CALLS[ip::K_FORK].load(SeqCst);
@@ -173,6 +187,7 @@ fn spawn_once(case: &WireCase, helper: &std::path::Path, prefix: &std::path::Pat
     match res {
         Err(e) => {
             obs.err = Some((e.to_string(), matches!(e, PopenError::LogicError(_))));
+            closed_guard.take();
             let after = fd_snapshot();
             let mut b2 = before.clone();
             for fd in &cfg_fds {
@@ -203,8 +218,10 @@ fn spawn_once(case: &WireCase, helper: &std::path::Path, prefix: &std::path::Pat
                 let _ = o.read_to_end(&mut obs.sink_data[2]);
             }
             obs.report = read_report(prefix, obs.pid, 5000);
+            drop(p);
         }
     }
+    drop(closed_guard);
     for i in 1..3 {
         if let Some(mut s) = sinks[i].take() {
             // the write end given to the library is closed by now (config consumed, child exited)
@@ -430,7 +447,7 @@ pub fn check_case(ctx: &Ctx, case: &WireCase, rep: &mut CaseReport) -> CaseResul
     reap_all();
     if case.cfg != [RK::None, RK::None, RK::None] {
         let share = format!("{}{}", if case.share_rc && case.cfg.iter().filter(|c| **c == RK::RcFile).count() >= 2 { "rc-shared" } else { "" }, if case.share_file && case.cfg.iter().filter(|c| **c == RK::File).count() >= 2 { "file-dup-shared" } else { "" });
-        rep.nontrivial(format!("{:?}/{:?}/{:?}|{}|thread{}", case.cfg[0], case.cfg[1], case.cfg[2], share, case.fresh_thread as u8));
+        rep.nontrivial(format!("{:?}/{:?}/{:?}|{}|thread{}|closedstd{}", case.cfg[0], case.cfg[1], case.cfg[2], share, case.fresh_thread as u8, (case.closed_std != 0) as u8));
     }
     // our own fds 0,1,2 become three distinct regular files for the duration
     let mk = |n: &str| -> File {
@@ -489,9 +506,9 @@ pub fn check_case(ctx: &Ctx, case: &WireCase, rep: &mut CaseReport) -> CaseResul
 
 const ALL: [RK; 5] = [RK::None, RK::Pipe, RK::File, RK::RcFile, RK::Merge];
 
-fn variant_strategy() -> impl Strategy<Value = ([FK; 3], bool, bool, u8, bool)> {
+fn variant_strategy() -> impl Strategy<Value = ([FK; 3], bool, bool, u8, bool, u8)> {
     let fk = prop_oneof![3 => Just(FK::Regular), 1 => Just(FK::DevNull), 1 => Just(FK::PipeEnd)];
-    ([fk.clone(), fk.clone(), fk], any::<bool>(), any::<bool>(), prop_oneof![3 => Just(1u8), 2 => 2u8..5, 1 => 5u8..21], prop_oneof![2 => Just(false), 1 => Just(true)])
+    ([fk.clone(), fk.clone(), fk], any::<bool>(), any::<bool>(), prop_oneof![3 => Just(1u8), 2 => 2u8..5, 1 => 5u8..21], prop_oneof![2 => Just(false), 1 => Just(true)], prop_oneof![2 => Just(0u8), 1 => 1u8..8])
 }
 
 fn worker(ctx: &Ctx) {
@@ -507,8 +524,8 @@ fn worker(ctx: &Ctx) {
                     if idx % ctx.nworkers != ctx.worker {
                         continue;
                     }
-                    let (kinds, share_rc, share_file, repeats, fresh_thread) = variants[idx - 1].clone();
-                    let case = WireCase { cfg: [a, b, c], kinds, share_rc, share_file, repeats: if v == 0 { 1 } else { repeats }, fresh_thread: if v == 0 { false } else { fresh_thread } };
+                    let (kinds, share_rc, share_file, repeats, fresh_thread, closed_std) = variants[idx - 1].clone();
+                    let case = WireCase { cfg: [a, b, c], kinds, share_rc, share_file, repeats: if v == 0 { 1 } else { repeats }, fresh_thread: if v == 0 { false } else { fresh_thread }, closed_std: if v == 0 { 0 } else { closed_std } };
                     if !ctx.run_case("real", &case, |rep| check_case(ctx, &case, rep)) {
                         break 'outer;
                     }
